@@ -43,12 +43,12 @@ dds.accept_module("pipe")
 fails = []
 def bad(group, what): fails.append({"group": group, "what": what})
 
-def run(stages=None, fn=None):
+def run(stages=None, fn=None, **opts):
     st = api._store_var
     st.ev.clear(); pipe.CALLS.clear()
     exc = None; res = None
     try:
-        res = dds.eval(fn or pipe.root, dds_stages=stages)
+        res = dds.eval(fn or pipe.root, dds_stages=stages, **opts)
     except BaseException as e:
         exc = e
     ev = list(st.ev); calls = list(pipe.CALLS)
@@ -170,13 +170,20 @@ for stages in (["eval"], ["analysis", "eval"], ["bogus"], [3]):
     res, exc, ev, calls = run(stages)
     if not isinstance(exc, DDSException) or calls: bad("dryrun", "stages=%r: not rejected with a DDSException (%r), calls %s" % (stages, exc, calls))
 # ---- failing user functions ---------------------------------------------------------------------------------------
-for where in ("root", "nested"):
-    for cls in (ValueError, KeyError, KeyboardInterrupt, SystemExit):
+import tempfile as _tf
+_gdir = _tf.mkdtemp(prefix="dds_h_api_graph_")
+# (the exception classes include those an I/O or import problem of dds itself would raise: a user's exception of such a
+#  class is the user's all the same; the entry options must not matter)
+for where, cls, entry in [(w_, c_, e_) for w_ in ("root", "nested") for c_ in (ValueError, KeyError, KeyboardInterrupt, SystemExit, FileNotFoundError, ImportError, PermissionError, MemoryError) for e_ in ({}, {"dds_export_graph": os.path.join(_gdir, "g.svg")}, {"dds_extra_debug": True})]:
+    if entry and cls in (KeyError, SystemExit, PermissionError):
+        continue
+    for _once in (1,):
         s = fresh(); pipe.SCALE = 7
         pipe.FAIL = (where, cls("boom"))
-        res, exc, ev, calls = run()
+        res, exc, ev, calls = run(**entry)
         k = kinds(ev)
-        tag = "%s raises %s" % (where, cls.__name__)
+        tag = "%s raises %s%s" % (where, cls.__name__, (" (dds.eval with %s)" % ", ".join(sorted(entry))) if entry else "")
+        if calls.count(where) != 1: bad("failure", "%s: the failing function ran %d times in one evaluation (calls %s)" % (tag, calls.count(where), calls))
         if exc is not pipe.FAIL[1]: bad("failure", "%s: propagated %r instead of the same exception object" % (tag, exc))
         if "sync_paths" in k or s._paths: bad("failure", "%s: paths committed by a failed evaluation" % tag)
         stored = [e for e in ev if e[0] == "store_blob"]
@@ -184,7 +191,7 @@ for where in ("root", "nested"):
         if where == "nested" and stored: bad("failure", "%s: blobs stored although the only kept functions failed: %s" % (tag, stored))
         if api._eval_ctx is not None: bad("failure", "%s: evaluation context still set after the failure" % tag); api._eval_ctx = None
         # the same failing evaluation once more: the store now holds the sub-results that completed before the failure
-        res, exc, ev, calls = run()
+        res, exc, ev, calls = run(**entry)
         k = kinds(ev)
         if exc is not pipe.FAIL[1]: bad("failure", "%s, evaluated a second time: propagated %r instead of the same exception object" % (tag, exc))
         if "sync_paths" in k or s._paths: bad("failure", "%s, evaluated a second time (sub-results of the first attempt are in the store): paths committed by a failed evaluation: %s" % (tag, sorted(s._paths)))
@@ -199,6 +206,8 @@ for where in ("root", "nested"):
         pipe.FAIL = None
         # sub-results that completed before the failure are reused
         check_full("evaluation following '%s'" % tag, *run(), s, expect_calls=["root"] if where == "root" else ["root", "nested"])
+import shutil as _sh
+_sh.rmtree(_gdir, ignore_errors=True)
 # ---- ill-formed evaluations ---------------------------------------------------------------------------------------
 for fn, code in ((pipe.overlap, DDSErrorCode.OVERLAPPING_PATH), (pipe.nested_eval, DDSErrorCode.EVAL_IN_EVAL), (pipe.rec_a, DDSErrorCode.CIRCULAR_CALL)):
     s = fresh()
